@@ -1,4 +1,47 @@
-import ErgoModel.Exec
+/-
+  C04 — Multi-event commands are all-or-nothing across process death (kill between two system calls).
+  After the fix commits every command is one lock section whose events go to the log in ONE write(2)
+  (append) or by tmp-file + rename (plan, compact).  Kill points between system calls therefore see either
+  the file before the write/rename or the file after it; T3 (strace) checks the one-write shape on every run.
+-/
+import ErgoProofs.Lemmas.StorageThm
+import ErgoProofs.Lemmas.ReachInv
 namespace Ergo
-theorem C04_placeholder : True := trivial
+open Storage
+
+variable {classify : Bytes → LineClass} {encode : Event → Bytes} {limit : Nat}
+
+/-- the file states a kill between two system calls of an appending command can leave: the write(2) has not been
+    entered (at most the tail repair happened) or it has completed -/
+inductive AppendCrashState (classify : Bytes → LineClass) (encode : Event → Bytes) (f : Bytes) (evs : List Event) : Bytes → Prop where
+  | before : AppendCrashState classify encode f evs f
+  | repaired : AppendCrashState classify encode f evs (repairTail classify f)
+  | after : AppendCrashState classify encode f evs (appendFile classify encode f evs)
+
+/-- all or nothing: a reader of any such state sees exactly the events before the command or exactly those after it -/
+theorem C04_append_all_or_nothing (hc : Codec classify encode) (f g : Bytes) (es evs : List Event)
+    (hr : readEvents classify limit f = .ok es) (hs : Short encode limit evs)
+    (h : AppendCrashState classify encode f evs g) :
+    readEvents classify limit g = .ok es ∨ readEvents classify limit g = .ok (es ++ evs) := by
+  cases h with
+  | before => exact Or.inl hr
+  | repaired => exact Or.inl (readEvents_repairTail f es hr).1
+  | after => exact Or.inr (appendFile_reads hc f es evs hr hs).1
+
+/-- plan / compact: the log name points to the complete old file until the rename and to the complete new one after it -/
+theorem C04_replace_all_or_nothing (hc : Codec classify encode) (f : Bytes) (es evs : List Event)
+    (hr : readEvents classify limit f = .ok es) (hs : Short encode limit evs) (renamed : Bool) :
+    readEvents classify limit (if renamed then replaceFile encode evs else f) = .ok (if renamed then evs else es) := by
+  cases renamed
+  · simpa using hr
+  · simpa [replaceFile] using readEvents_linesOf hc evs hs
+
+/-- hence no kill can leave a task claimed-but-todo or doing-but-unclaimed: both visible states satisfy the invariant -/
+theorem C04_no_half_claim (log : List Event) (h : ReachOK log) (env : Env) (req : Request) (g : Graph) (henv : EnvOK g env)
+    (hg : replayRaw log = .ok g) :
+    (∃ g0, replay log = .ok g0 ∧ Inv06 g0) ∧ (∃ g1, replay (runCmd log env req).log = .ok g1 ∧ Inv06 g1) := by
+  refine ⟨?_, ?_⟩
+  · obtain ⟨g0, h0, hi⟩ := reach_replay log h; exact ⟨g0, h0, hi.i06⟩
+  · obtain ⟨g1, h1, hi⟩ := reach_replay _ (ReachOK.step env req h hg henv); exact ⟨g1, h1, hi.i06⟩
+
 end Ergo
